@@ -15,6 +15,8 @@ import CelloProofs.Lemmas.CfgKeep
 import CelloProofs.Lemmas.CfgGuard
 import Cello.ConfigType
 import CelloProofs.Lemmas.CfgType
+import Cello.ConfigThread
+import CelloProofs.Lemmas.CfgThread
 
 namespace Cello.Config
 open CelloGen.Cfg
@@ -56,6 +58,102 @@ theorem C18_collector_blocks_only_register :
       ((k = .unregister ∨ k = .returnAfterUnregister) ∧ b.2.1 = "del_by") ∨
       ((k = .threadCollectorNew ∨ k = .threadCollectorDel) ∧ b.2.1 = "Thread_Init_Run") := by
   decide +kernel
+
+/-! ### objects that cross the END of a collector (extension round)
+
+  Every thread has its own collector; `Thread_Init_Run` deletes it when the thread function has returned, `Cello_Exit` deletes the
+  main thread's.  `GC_Del` runs `GC_Unmark; GC_Sweep` — no mark phase — so whether a block survives the end of the collector it
+  was registered with is decided by the scanning loop of `GC_Sweep` alone.  translate/g_cfg.py regenerates that loop as a decision
+  list over the members of `struct GCEntry` (`gcSweepLoop`), the members `GC_Unmark` clears, and the phase sequences of `GC_Del`,
+  `GC_Set` and the prologue of `GC_Mark`; Cello/ConfigThread.lean evaluates them (`Thr.sweepFrees`, `Thr.teardown`, `Thr.workerRun`). -/
+
+/-- **The end of a collector spares roots** (source as it is now).  The scanning loop of `GC_Sweep`, evaluated on the entry
+    `GC_Set_Ptr` builds, releases an occupied slot exactly when it carries neither the root argument nor the mark bit; the root loop
+    of `GC_Mark` tests the member the root argument is stored in; `GC_Del` = `GC_Unmark; GC_Sweep`, a threshold collection =
+    `GC_Mark; GC_Sweep` with `GC_Unmark` first, `GC_Unmark` clears the mark member and nothing else; and on a registry with all four
+    kinds of entry the teardown keeps exactly the two roots.  Dropping the root test from the loop ("roots are marked by GC_Mark
+    anyway": true for the pair run from `GC_Set`, false for `GC_Del`) makes this `decide` fail. -/
+theorem C18_teardown_spares_roots :
+    Thr.SweepWired ∧
+    gcDelCalls = ["GC_Unmark", "GC_Sweep"] ∧ gcSetCalls = ["GC_Mark", "GC_Sweep"] ∧ gcMarkPrologue = ["GC_Unmark"] ∧
+    gcUnmarkClears = [Thr.markMember] ∧
+    Thr.teardown [(0, ⟨true, false⟩), (1, ⟨false, false⟩), (2, ⟨true, true⟩), (3, ⟨false, true⟩)] =
+      ([(0, ⟨true, false⟩), (2, ⟨true, false⟩)], [1, 3]) := by
+  decide +kernel
+
+/-- the hypothesis the lemmas of CelloProofs/Lemmas/CfgThread.lean are stated under -/
+theorem C18_sweep_wired : Thr.SweepWired := C18_teardown_spares_roots.1
+
+/-- **Roots outlive their collector, in every configuration.**  Whatever a worker thread does — allocations with `new`, `new_raw`,
+    `new_root` in any order, threshold collections at any moments with any set of blocks reached — and then ends (`del_raw(gc)`:
+    the teardown sweep), no block it made with `new_root` or `new_raw` has been destructed or freed: the joiner may read it. -/
+theorem C18_roots_outlive_their_collector (cfg : Cfg) (evs : List Thr.WEv) :
+    ∀ i ∈ (Thr.workerRun cfg evs).safe, Thr.aliveAfterJoin cfg evs i = true := by
+  intro i hi
+  have h := (Thr.workerRun_inv C18_sweep_wired cfg evs).freedUnsafe
+  unfold Thr.aliveAfterJoin
+  cases hc : (Thr.workerRun cfg evs).freed.contains i
+  · rfl
+  · exact absurd hi (h i (by simpa using hc))
+
+/-- **… so what a worker publishes as roots reads the same in any two builds**: the same blocks are roots / raw in both, and each
+    of them is alive after `join` in both (with the collector: spared by the teardown; without: nothing ever frees it). -/
+theorem C18_worker_results_config_independent (c1 c2 : Cfg) (evs : List Thr.WEv) :
+    (Thr.workerRun c1 evs).safe = (Thr.workerRun c2 evs).safe ∧
+    ∀ i ∈ (Thr.workerRun c1 evs).safe, Thr.aliveAfterJoin c1 evs i = Thr.aliveAfterJoin c2 evs i := by
+  refine ⟨Thr.workerRun_safe c1 c2 evs, ?_⟩
+  intro i hi
+  rw [C18_roots_outlive_their_collector c1 evs i hi,
+      C18_roots_outlive_their_collector c2 evs i (by rw [← Thr.workerRun_safe c1 c2 evs]; exact hi)]
+
+/-- non-vacuity: a worker that makes a plain object, two roots and a raw object, collects twice (reaching nothing / one root) and
+    ends — three blocks are the joiner's to read, and the plain one is gone in the build with the collector only -/
+example : (Thr.workerRun Cfg.default [.alloc .standard, .alloc .root, .collect [], .alloc .root, .alloc .raw, .collect [1]]).safe = [3, 2, 1] ∧
+          (Thr.workerRun Cfg.default [.alloc .standard, .alloc .root, .collect [], .alloc .root, .alloc .raw, .collect [1]]).freed = [0] ∧
+          (Thr.workerRun Keep.ngcCfg [.alloc .standard, .alloc .root, .collect [], .alloc .root, .alloc .raw, .collect [1]]).freed = [] := by
+  decide +kernel
+
+/-- the statement without the restriction to roots is false: a result made with plain `new` is finalised by the worker's teardown
+    in a build with the collector and stays in a CELLO_NGC build (known finding KF-C13-join-result-finalised, seen from C18) -/
+theorem C18_worker_plain_result_refuted :
+    Thr.aliveAfterJoin Cfg.default [.alloc .standard] 0 = false ∧ Thr.aliveAfterJoin Keep.ngcCfg [.alloc .standard] 0 = true := by
+  decide +kernel
+
+/-- **… and the root test of the loop is needed** (the seeded shape): with the loop `if (hash is 0) skip; if (marked) skip; release`
+    a threshold collection still keeps every root (`GC_Mark` marked it), but the teardown — no mark phase — releases it. -/
+theorem C18_unguarded_sweep_loop_refuted :
+    Thr.decideLoop [("skip", [(false, "hash")]), ("skip", [(true, Thr.markMember)]), ("free", [])] ⟨true, true⟩ = false ∧
+    Thr.decideLoop [("skip", [(false, "hash")]), ("skip", [(true, Thr.markMember)]), ("free", [])] ⟨true, false⟩ = true := by
+  decide +kernel
+
+/-- **The thread's collector brackets the thread function** (source as it is now): run statement by statement in the order of
+    `Thread_Init_Run` (regenerated: `threadRunEvents`), with the `#ifndef CELLO_NGC` statements present exactly in the builds that
+    have the collector, a started thread is `Thr.workerRun`: collector made before the thread function runs, the function runs
+    once, the teardown (`Thr.threadEnd`) comes after it — in every configuration, for every thread function.  Moving `del_raw(gc)`
+    before `call_with`, dropping one of the two guards, or guarding anything else makes this fail; the Exception record is deleted
+    after the collector (fix 7de4bbc: destructors run by the teardown may use try/throw). -/
+theorem C18_thread_collector_brackets_thread_function :
+    (∀ (cfg : Cfg) (evs : List Thr.WEv), Thr.runThread cfg evs = some (Thr.workerRun cfg evs)) ∧
+    (threadRunEvents.filter (·.2)).map (·.1) = [.bottom, .gcNew, .gcDel] ∧
+    (threadRunEvents.map (·.1)).idxOf .gcDel < (threadRunEvents.map (·.1)).idxOf .excDel ∧
+    (threadRunEvents.map (·.1)).idxOf .excNew < (threadRunEvents.map (·.1)).idxOf .call := by
+  refine ⟨?_, by decide, by decide, by decide⟩
+  intro cfg evs
+  obtain ⟨c1, c2, g⟩ := cfg
+  cases g <;> rfl
+
+/-- the joiner's step of the workload model (`w <creating op>` in the op files): in every configuration the object a worker made
+    with `new_root` is, for the joiner, a block no collector manages — the step is the `new_raw` step, nothing dangles -/
+theorem C18_joined_step_is_raw_step (cfg : Cfg) (op : Op) (s : St) :
+    Thr.stepJoined cfg op s = (match Thr.asJoined op with | none => (s, .ub) | some op' => step cfg op' s) := by
+  have h : Thr.rootOutlivesThread cfg = true :=
+    C18_roots_outlive_their_collector cfg [.alloc .root] 0 (by
+      rw [Thr.workerRun_safe cfg Keep.ngcCfg]
+      decide)
+  unfold Thr.stepJoined
+  cases Thr.asJoined op with
+  | none => rfl
+  | some op' => simp [h]
 
 /-! ### the root flag of a registry entry: from `new_root` to the tests of `GC_Mark` and `GC_Sweep`
 
